@@ -108,16 +108,17 @@ Eval vm_compute in ("c06_inverse_names_are"%string, c06_inverse_names).
 (* MODIFIED BASIS GATES IN WHOLE PROGRAMS (Lang/ModUnrollProofs.v, inside the judgement of Props/C01.v).  A statement
        m1 @ m2 @ ... @ g(params) r[i], ...;      mi ::= inv | pow(k), k an integer literal of any sign;
        params closed expressions over literals, pi / tau / euler and the operators (`cparams` computes their values)
-   on a basis gate g collapses to a count p (the product of the |k|) and a flag inv (the parity of the `inv`s and the negative
-   k); unroll() emits p copies of g, or of the inverse of g when inv holds: self-inverse gates stay, s <-> sdg, t <-> tdg,
-   rx / ry / rz negate their angle; pow(0) emits nothing.  One statement, any modifier list, any state that holds the registers: *)
-Theorem C06_modified_basis_gate_unrolls_to_repetitions check_only visit_rec call_rec env s mods name args vs bs p inv g :
-  Regs env s -> cmods mods 1 false = Some (p, inv) -> (p < 10000)%Z ->
-  applied name vs bs inv = Some g -> cparams args = Some vs ->
+   on ANY library gate g that no definition shadows collapses to a count p (the product of the |k|) and a flag inv (the parity
+   of the `inv`s and the negative k); unroll() emits p copies of what the operation tables lower g -- or, when inv holds, the
+   inverse of g -- to (`lower_app`, computed from the tables as the visitor does: self-inverse gates stay, s <-> sdg, t <-> tdg,
+   rotations negate their angle, cnot gives cx, u3 its rz / rx sequence, ...); pow(0) emits nothing.  One statement, any modifier list, any state that holds the registers: *)
+Theorem C06_modified_basis_gate_unrolls_to_repetitions check_only visit_rec call_rec env s mods name args vs bs p inv stmts :
+  Regs env s -> smemk name (gates s) = false -> cmods mods 1 false = Some (p, inv) -> (p < 10000)%Z ->
+  lower_app name vs bs inv = Some stmts -> cparams args = Some vs ->
   forallb (in_reg (e_q env)) bs = true -> distinctb [] bs = true ->
   exists s1, visit_generic_gate check_only [] visit_rec call_rec mods name args (map qarg_of bs) s
-             = Ok ((if check_only then [] else repeat g (Z.to_nat p)), s1) /\ DE s s1 /\ Dstep s s1 (repeat (map Qr bs) (Z.to_nat p)).
-Proof. exact (modified_gate_fix check_only visit_rec call_rec env s mods name args vs bs p inv g). Qed.
+             = Ok ((if check_only then [] else copies (Z.to_nat p) stmts), s1) /\ DE s s1 /\ Dstep s s1 (repeat (map Qr bs) (Z.to_nat p)).
+Proof. exact (modified_gate_fix check_only visit_rec call_rec env s mods name args vs bs p inv stmts). Qed.
 Print Assumptions C06_modified_basis_gate_unrolls_to_repetitions.
 
 (* the count and the flag do not depend on the order of the modifiers *)
